@@ -11,7 +11,7 @@
   * `commit_handler/default_commit_handler.rs`
       `DefaultCommitHandler::run` (one `select!` iteration: recv one notification, `try_recv` up to
         `max_batch_size - 1` more, `update_pending` each, then `process_batch`)            → `run1`
-      `process_batch` (range from `pending_range`, `start = max(range.start, dispatched_up_to + 1)`,
+      `process_batch` (every `send_to_sm_worker(..)?` fails once the worker is gone; range from `pending_range`, `start = max(range.start, dispatched_up_to + 1)`,
         `get_entries_range`, the per-entry loop, early `Err` return that drops the unsent tail)  → `processBatch`
       `apply_config_change` (called only while `last_error.is_none()`)                     → `cfgCalls`
       `send_to_sm_worker` (non-empty batch is sent, `dispatched_up_to.fetch_max(last index)`) → `dispatchedAfter`
@@ -90,7 +90,9 @@ structure St where
   dispatched : Nat := 0           -- DefaultCommitHandler.dispatched_up_to
   notif : List Nat := []          -- new_commit_rx (NewCommitData.new_commit_index values)
   queue : List Batch := []        -- sm_apply channel
-  workerDead : Bool := false      -- StateMachineWorker::run has returned Err
+  holding : Option Batch := none  -- batch the worker has received (inside apply_and_notify, not applied yet)
+  workerDead : Bool := false      -- StateMachineWorker::run has returned Err (its receiver is dropped:
+                                  -- the channel is closed, every later send_to_sm_worker fails)
   applied : List (Nat × ACmd) := []   -- every (index, command) handed to StateMachine::apply_chunk, in order
   chunks : List (List Nat) := []  -- the same, grouped per apply_chunk call (indexes only)
   kv : KV := []                   -- state machine content
@@ -140,6 +142,9 @@ def lastIdx (b : Batch) : Nat := (b.getLast?.map (·.1)).getD 0
 def dispatchedAfter (d : Nat) (sent : List Batch) : Nat := sent.foldl (fun d b => max d (lastIdx b)) d
 
 def processBatch (s : St) : St :=
+  -- worker gone ⇒ channel closed ⇒ the first `send_to_sm_worker(..)?` returns Err before anything is
+  -- recorded (`fetch_max` and `apply_config_change` both come after the send)
+  if s.workerDead then s else
   if s.pending > s.lastApplied then
     let start := max (s.lastApplied + 1) (s.dispatched + 1)
     if start > s.pending then s
@@ -164,16 +169,24 @@ def run1 (maxBatch : Nat) (s : St) : St :=
 
 /-! ### SM worker -/
 
-/-- `StateMachineWorker::apply_and_notify` on the next queued batch. -/
-def work (s : St) : St :=
-  if s.workerDead then s else
+/-- The worker's `sm_apply_rx.recv()` followed by `decode_entries` inside `apply_chunk`: a batch that does
+    not decode makes `apply_and_notify` and then `run` return `Err` (worker gone, receiver dropped). -/
+def fetch (s : St) : St :=
+  if s.workerDead || s.holding.isSome then s else
   match s.queue with
   | [] => s
   | b :: q =>
-    if b.any (fun e => isBad e.2) then { s with queue := q, workerDead := true }
-    else
+    if b.any (fun e => isBad e.2) then { s with queue := [], workerDead := true }
+    else { s with queue := q, holding := some b }
+
+/-- The rest of `apply_and_notify` for the batch the worker holds: `StateMachine::apply_chunk`,
+    `last_applied.store(last index)`. -/
+def applyHeld (s : St) : St :=
+  match s.holding with
+  | none => s
+  | some b =>
       let cmds := b.map (fun e => (e.1, decode e.2))
-      { s with queue := q,
+      { s with holding := none,
                applied := s.applied ++ cmds,
                chunks := s.chunks ++ [b.map (·.1)],
                kv := cmds.foldl (fun m c => applyACmd m c.2) s.kv,
@@ -184,7 +197,7 @@ def work (s : St) : St :=
     machine's own `last_applied`. -/
 def restart (s : St) : St :=
   { s with lastApplied := s.smLast, pending := 0, dispatched := 0, notif := [], queue := [],
-           workerDead := false }
+           holding := none, workerDead := false }
 
 /-! ### Schedules -/
 
@@ -192,7 +205,8 @@ inductive Op where
   | append (p : Payload)   -- the raft log receives one more entry
   | commit (c : Nat)       -- a commit notification is put on the channel
   | run1                   -- the commit handler executes one loop iteration
-  | work                   -- the SM worker applies one queued batch
+  | fetch                  -- the SM worker receives (and decodes) the next queued batch
+  | apply                  -- the SM worker applies the batch it holds and stores last_applied
   | restart
 deriving Repr, DecidableEq
 
@@ -200,7 +214,8 @@ def step (mb : Nat) (s : St) : Op → St
   | .append p => { s with log := s.log ++ [p] }
   | .commit c => { s with notif := s.notif ++ [c] }
   | .run1 => run1 mb s
-  | .work => work s
+  | .fetch => fetch s
+  | .apply => applyHeld s
   | .restart => restart s
 
 def exec (mb : Nat) (s : St) (ops : List Op) : St := ops.foldl (step mb) s
